@@ -695,7 +695,7 @@ def written_locals(n):
             p = path(x.get("lhs"))
         elif k == "Un" and x.get("op") in ("pre++", "pre--", "post++", "post--"):
             p = path(x.get("e"))
-        if p and len(p) == 1 and p[0].startswith("l:"):
+        if p and len(p) == 1 and (p[0].startswith("l:") or p[0].startswith("p:")):
             out.add(p[0])
     return out
 
@@ -896,3 +896,61 @@ def subst_formula(f, pmap):
     if h == "call":
         return ("call", sub_str(f[1]))
     return f
+
+
+ITEM_CONTAINERS = ("m_query_responses", "m_address_event_counts", "m_malformed_messages")
+
+
+def is_item_count_test(atom):
+    """A guard atom that tests a block's total item count: through get_item_count() or, after the getter was
+    inlined, through an expression over the sizes of all three item containers."""
+    r = repr(atom)
+    return "get_item_count" in r or all(m in r for m in ITEM_CONTAINERS)
+
+
+def eval_formula(f, val):
+    """Three-valued evaluation of a guard formula under a valuation {key: int}: True / False / None (unknown atom)."""
+    h = f[0]
+    if h == "T":
+        return True
+    if h == "F":
+        return False
+    if h == "not":
+        r = eval_formula(f[1], val)
+        return None if r is None else (not r)
+    if h in ("and", "or"):
+        rs = [eval_formula(x, val) for x in f[1:]]
+        if h == "and":
+            if any(r is False for r in rs):
+                return False
+            return None if any(r is None for r in rs) else True
+        if any(r is True for r in rs):
+            return True
+        return None if any(r is None for r in rs) else False
+    if h == "nz":
+        k = f[1] if isinstance(f[1], str) else path_str(f[1])
+        return (val[k] != 0) if k in val else None
+    if h == "cmp":
+        def v(s):
+            if s in val:
+                return val[s]
+            try:
+                return int(s)
+            except (TypeError, ValueError):
+                return None
+        a, b = v(f[2]), v(f[3])
+        if a is None or b is None:
+            return None
+        return {"==": a == b, "!=": a != b, "<": a < b, "<=": a <= b, ">": a > b, ">=": a >= b}[f[1]]
+    return None
+
+
+def walk_formula(f):
+    """All atoms of a formula."""
+    if f[0] in ("and", "or"):
+        for x in f[1:]:
+            yield from walk_formula(x)
+    elif f[0] == "not":
+        yield from walk_formula(f[1])
+    else:
+        yield f
